@@ -176,6 +176,7 @@ type Machine struct {
 	digitSeq   int
 	zoneChecked map[*Term]bool
 	syncMaps    map[*Val]*Map // state of sync.Map variables (stubs.go)
+	syncPools   map[*Val][]Val // free lists of sync.Pool variables (stubs.go)
 	relLimit    int     // preemptions right after a mutex release allowed on this path (verifPreemptAtRelease)
 	relPreempts int     // preemptions right after a mutex release used on this path
 	relYield    *thread // the thread that is at a release point (set for the scheduler's next pick)
